@@ -176,6 +176,23 @@ async fn episode(p: &EpParams) -> EpReport {
                     let _ = pubtask.await;
                     rep.inc("cancelled_in_the_instant_of_notify");
                     shape.push(format!("pub{}!cancel", k));
+                } else if rng.chance(1, 4) {
+                    // several publishers at once: a second message may arrive right behind the pull
+                    // of the consumer that the first one woke
+                    let n_pub = rng.range(2, 4);
+                    let mut hs = Vec::new();
+                    for (i, m) in msgs.iter().cycle().take(n_pub as usize).enumerate() {
+                        let cx = Cx::new(&w, 40 + i as u32);
+                        let t2 = t.clone();
+                        tagn += 1;
+                        let one = vec![Msg::tagged(&format!("{}p{}", m.tag, tagn))];
+                        hs.push(tokio::spawn(async move { cx.publish(&t2, &one).await.map(|_| ()) }));
+                    }
+                    for h in hs {
+                        let _ = h.await;
+                    }
+                    shape.push(format!("pub1x{}", n_pub));
+                    rep.inc("concurrent_publishes");
                 } else {
                     let _ = c0.publish(&t, &msgs).await;
                     shape.push(format!("pub{}", k));
